@@ -9,9 +9,10 @@ W8 = 255
 
 def pick_mode(rng):
     r = rng.random()
-    if r < 0.62: return 'small'
-    if r < 0.80: return 'u8'
-    if r < 0.92: return 'wide'
+    if r < 0.58: return 'small'
+    if r < 0.76: return 'u8'
+    if r < 0.88: return 'wide'
+    if r < 0.94: return 'dense'
     return 'medium'
 
 
@@ -20,6 +21,8 @@ def coord(rng, mode):
         return rng.randint(0, 12)
     if mode == 'medium':
         return rng.randint(0, 300)
+    if mode == 'dense':
+        return rng.randint(0, 900)
     if mode == 'u8':
         r = rng.random()
         if r < 0.4: return rng.randint(240, 255)
@@ -47,6 +50,14 @@ def rand_iv(rng, mode, kind):
 
 
 def rand_ivs(rng, mode, n, kind):
+    if mode == 'dense' and n > 0:
+        # many short intervals (small max_len): binary searches and cursor walks pass dozens of entries
+        xs = sorted(rng.sample(range(0, 900), rng.choice([25, 40, 70])))
+        out = [(x, x + rng.randint(0 if kind in ('le', 'any') else 1, 4)) for x in xs]
+        if rng.random() < 0.3:
+            out.append((rng.randint(0, 400), rng.randint(500, 900)))      # plus one long interval
+        rng.shuffle(out)
+        return out
     out = []
     for _ in range(n):
         r = rng.random()
